@@ -4,6 +4,7 @@ from ..cfg import Body
 from ..report import where
 from .. import storemodel as sm, pairing
 from .. import orderdom as od
+from .. import divguard as dg
 
 LEVEL = "other"
 
@@ -97,5 +98,21 @@ def run(ctx, F, cg):
             ctx.violation("R29e", "CosineDistance::eval|threshold", where(r, bad[0]), "a norm is compared with the non-zero constant `%s`: vectors shorter than that are all reported at the same distance, whatever their direction" % bad[1])
         else:
             ctx.ok("R29e", "CosineDistance::eval|zero-guard", "%d float comparison(s) with a constant, all with zero" % ncmp)
+    # ---- R29f: every distance division is guarded against a zero norm ---------------------------------------------
+    ctx.rule("R29f", "in the vector index module every float division with a computed divisor (a norm, a product of norms) is dominated by a comparison of each divisor leaf with a constant, or the leaf is floored by max(positive constant): an unguarded 0/0 is NaN, NaN survives clamp and `(1.0 - NaN).max(0.0)` is 0.0, so a zero vector would be ranked first for every query instead of at the declared distance")
+    ndiv = 0
+    for p, r in sorted(F.fns.items()):
+        if not (p.startswith("samyama::vector::") or p.startswith("<samyama::vector::")):
+            continue
+        bad, n = dg.unguarded(F, p)
+        if n:
+            ctx.saw_fn(p)
+        ndiv += n
+        short = p.replace("samyama::vector::", "")
+        for k, (line, what) in enumerate(bad):
+            ctx.violation("R29f", "%s|unguarded-div|%d" % (short, k), where(r, line), "float division whose divisor depends on %s with no dominating comparison of it with a constant: a zero-norm stored vector or query makes the distance NaN, which the clamp/max/partial_cmp chain turns into distance 0 (ranked first) or an arbitrary position" % what)
+        if n and not bad:
+            ctx.ok("R29f", short + "|div-guarded", "%d float division(s), every divisor leaf compared with a constant first" % n)
+    ctx.floor("R29f", "float divisions in the vector module", ndiv, 1)
     return ("Decided: which store mutators keep the vector index current, whether the declared metric influences ranking at all, and whether the consuming "
-            "operator validates hits. Not decided: ranking values, HNSW recall.")
+            "operator validates hits, and that every distance division in the vector module is guarded against a zero divisor. Not decided: ranking values, HNSW recall.")
